@@ -1090,3 +1090,56 @@ func ruleNoTxStateInStores(c *Ctx, rule string) {
 	c.CallSites(n)
 	c.Floor(rule, 8)
 }
+
+// ruleDeleteMembership (DELETEMEMBER): on the delete path membership of an entity in a store is what FindById
+// says (for an extended store a row without child data is still an entity of the store). The functions that run
+// a store's delete constraints do not sort entities out by IsEntityPresent, which only looks for the store's own
+// bucket: the store's delete constraints — the system-entity guard among them — would be skipped for base-only
+// rows of an extended store.
+func ruleDeleteMembership(c *Ctx, rule string) {
+	p := c.P
+	n := 0
+	for _, mname := range []string{"processDeleteConstraints", "DeleteById"} {
+		m := p.MethodOpt("boltz", "BaseStore", mname)
+		if m == nil {
+			continue
+		}
+		fn := p.SSAFunc(m)
+		if fn == nil {
+			continue
+		}
+		n++
+		c.Analysed(FnName(fn))
+		asksExtended := false
+		what, at, via := reachesStatic(fn, 3, func(call ssa.CallInstruction) string {
+			cal, _ := calleeOf(call.Common())
+			if cal == nil {
+				return ""
+			}
+			if cal.Name() == "IsExtended" {
+				asksExtended = true
+			}
+			if cal.Name() == "IsEntityPresent" {
+				// only a question about this very store's entity (the receiver), not about a referenced store
+				cc := call.Common()
+				recv := cc.Value
+				if !cc.IsInvoke() && len(cc.Args) > 0 {
+					recv = cc.Args[0]
+				}
+				if f, _ := loadedField(recv); f != nil {
+					return "" // a store reached through a field (a referenced store)
+				}
+				return "IsEntityPresent"
+			}
+			return ""
+		})
+		pos := p.Pos(fn.Pos())
+		if at != nil {
+			pos = p.Pos(at.Pos())
+		}
+		bad := what != "" && !asksExtended
+		c.Check(!bad, rule, FnName(fn), pos, "membership on the delete path is decided by the load (FindById), not by the presence of the store's own bucket", "the delete path sorts entities out by "+what+via+" without asking whether the store is extended: a row of an extended store that has no child data is still an entity of that store (FindById answers it), but its delete constraints are skipped — a system entity of an extended store is deleted from an ordinary context")
+	}
+	c.CallSites(n)
+	c.Floor(rule, 2)
+}
